@@ -5,15 +5,33 @@ Proof side: Props/C01.lean (the exception-to-tag mapping of Checker.check and th
 NoCrash / closed-error-set theorems of the component models).  Test side (what no model can exhibit: CPython's regex
 engine time, third-party code, the OS): a crash- and hang-seeking end-to-end search on the REAL code, in-process
 (`Checker.check`) and through the command line (`rc`, stderr, line grammar), plus a size-doubling timing stream."""
-import collections, json, multiprocessing, os, re, shutil, sys, tempfile, time, traceback
+import collections, json, multiprocessing, os, re, shutil, sys, tempfile, time, traceback, unicodedata
 sys.path.insert(0, os.path.join(os.path.dirname(os.path.abspath(__file__)), '..'))
 import common
 import e2e_common as E
+import pipeline_common as P
+import regex_screen as RX
 from gen import hostile as HG
 from gen import catalog as CAT
+from gen import cfmt as GC
+from gen import pyfmt as GP
 
 LINE_RE = re.compile(r'\A[EWIP]: [^\n]*\Z')
-HANG_S = 90            # wall seconds after which one file (≤ 256 KiB) counts as a hang
+def _bad_class():
+    """a character class of everything in categories Cc, Cf, Zl, Zp, Cs, as ranges"""
+    out, start, prev = [], None, None
+    for c in range(sys.maxunicode + 1):
+        if unicodedata.category(chr(c)) in ('Cc', 'Cf', 'Zl', 'Zp', 'Cs'):
+            if start is None:
+                start = c
+            prev = c
+        elif start is not None:
+            out.append((start, prev)); start = None
+    if start is not None:
+        out.append((start, prev))
+    return '[' + ''.join('\\U%08x-\\U%08x' % r for r in out) + ']'
+BAD_CHAR_RE = re.compile(_bad_class())     # what must never reach a terminal unescaped
+HANG_S = 45            # wall seconds after which one file (≤ 256 KiB) counts as a hang (the slowest file of the unchanged tree needs ~2 s)
 _worker = {}
 
 def _init_worker():
@@ -21,6 +39,9 @@ def _init_worker():
     H.ready()
     _worker['H'] = H
     _worker['dir'] = tempfile.mkdtemp(prefix='i18n-verif-c01.')
+    # a cache directory of its own (rply's table cache): the workers of this harness must not race with each other —
+    # the race between the tool's OWN -j workers is what the fresh-cache command-line runs below look for
+    os.environ['XDG_CACHE_HOME'] = os.path.join(_worker['dir'], '.cache')
     import atexit
     atexit.register(lambda: shutil.rmtree(_worker['dir'], ignore_errors=True))
 
@@ -33,12 +54,52 @@ def _site(tb):
             site = os.path.relpath(fn, common.REPO) + ':' + fr.name
     return site or 'outside-lib'
 
+def rply_race_case(idx):
+    """the first-use race of `-j N` workers on rply's cache directory, made deterministic: the directory appears between rply's
+    `os.path.exists(cache_dir)` and its `os.makedirs(cache_dir)` (another worker has just created it)"""
+    out = {'idx': idx, 'ntags': 0, 'cpu': 0}
+    from lib import intexpr
+    cache = tempfile.mkdtemp(prefix='i18n-verif-c01r.')
+    saved_env = os.environ.get('XDG_CACHE_HOME')
+    os.environ['XDG_CACHE_HOME'] = cache
+    rdir = os.path.join(cache, 'rply')
+    orig_exists = os.path.exists
+    state = {'fired': False}
+    def exists(p):
+        if not state['fired'] and os.fspath(p) == rdir:
+            state['fired'] = True
+            os.makedirs(rdir, exist_ok=True)      # the other worker wins the race here
+            return False
+        return orig_exists(p)
+    try:
+        intexpr.create_lexer.cache_clear()
+        intexpr.create_parser.cache_clear()
+        os.path.exists = exists
+        try:
+            intexpr.Parser().parse('n != 1')
+            out['kind'] = 'ok' if state['fired'] else 'ok'
+            out['tags'] = ['rply-cache-race-simulated'] if state['fired'] else []
+        except BaseException as exc:     # noqa
+            out.update(kind='crash', exc=type(exc).__name__, site=_site(exc.__traceback__), msg=str(exc)[:200],
+                       tb=''.join(traceback.format_exception(type(exc), exc, exc.__traceback__))[-1500:])
+    finally:
+        os.path.exists = orig_exists
+        if saved_env is None:
+            os.environ.pop('XDG_CACHE_HOME', None)
+        else:
+            os.environ['XDG_CACHE_HOME'] = saved_env
+        intexpr.create_lexer.cache_clear()
+        intexpr.create_parser.cache_clear()
+        shutil.rmtree(cache, ignore_errors=True)
+    return out
+
 def run_case(case):
     """(index, data, ext, opts) → dict outcome; runs the real Checker.check in this worker process"""
     idx, data, ext, opts = case
     H = _worker['H']
+    if opts.get('special') == 'rply-cache-race':
+        return rply_race_case(idx)
     from lib import tags, ling
-    import unicodedata
     sub = opts.get('subdir', '')
     d = os.path.join(_worker['dir'], sub if sub else 'plain')
     os.makedirs(d, exist_ok=True)
@@ -91,7 +152,7 @@ def run_case(case):
         except BaseException as exc:
             out.update(kind='crash', exc=type(exc).__name__, site='tag.format:' + name, msg=str(exc)[:200], tb='')
             return out
-        bad = (not LINE_RE.match(line)) or any(unicodedata.category(c) in ('Cc', 'Cf', 'Zl', 'Zp', 'Cs') for c in line)
+        bad = (not LINE_RE.match(line)) or BAD_CHAR_RE.search(line) is not None
         if bad:
             out.update(kind='badline', line=line[:300], tag=name)
             return out
@@ -99,34 +160,130 @@ def run_case(case):
     out['tags'] = sorted(set(names))
     return out
 
-def run_cases(cases, workers, on_result):
-    """map run_case over cases in worker processes; a case that does not return within HANG_S is a hang"""
-    i = 0
-    while i < len(cases):
-        pool = multiprocessing.Pool(workers, initializer=_init_worker)
-        it = pool.imap(run_case, cases[i:], chunksize=1)
+def _worker_loop(conn):
+    try:
+        _init_worker()
+    except BaseException as exc:     # noqa
+        conn.send({'idx': -1, 'kind': 'worker-init-failed', 'msg': repr(exc)[:300]})
+        return
+    while True:
         try:
-            while i < len(cases):
+            case = conn.recv()
+        except EOFError:
+            return
+        if case is None:
+            return
+        try:
+            conn.send(run_case(case))
+        except BaseException as exc:     # noqa
+            try:
+                conn.send({'idx': case[0], 'kind': 'crash', 'exc': 'HarnessError', 'site': 'harness', 'msg': repr(exc)[:200], 'tb': '', 'cpu': 0})
+            except Exception:
+                return
+
+def run_cases(cases, workers, on_result, hang_s=None, max_hangs=3, depends=None):
+    """run_case over the cases in `workers` child processes, one case at a time per child; a case that does not return within
+    `hang_s` wall seconds is a hang: only its child is killed.  After `max_hangs` hangs the remaining cases are not run (reported
+    to `on_result` as kind 'skipped').  `depends[idx] = idx of a smaller case`: a case is not run (kind 'hang', skipped_after=…)
+    when the smaller one hung or needed more than a quarter of the limit."""
+    import multiprocessing.connection as mpc
+    hang_s = hang_s or HANG_S
+    depends = depends or {}
+    ctx = multiprocessing.get_context('fork')
+    pending = collections.deque(cases)
+    done = {}
+    busy = {}        # conn -> (proc, case, t0)
+    idle = []        # (proc, conn)
+    hangs = 0
+    def spawn():
+        parent, child = ctx.Pipe()
+        pr = ctx.Process(target=_worker_loop, args=(child,))
+        pr.daemon = True
+        pr.start()
+        child.close()
+        return pr, parent
+    def finish(case, r):
+        done[case[0]] = r
+        on_result(r)
+    try:
+        while pending or busy:
+            # hand out work
+            postponed = 0
+            while pending and (idle or len(busy) < workers) and postponed <= len(pending):
+                case = pending.popleft()
+                if hangs >= max_hangs:
+                    finish(case, {'idx': case[0], 'kind': 'skipped', 'cpu': 0, 'ntags': 0})
+                    continue
+                dep = depends.get(case[0])
+                if dep is not None:
+                    if dep not in done:
+                        pending.append(case)
+                        postponed += 1
+                        continue
+                    d = done[dep]
+                    if d['kind'] in ('hang', 'skipped') or d.get('cpu', 0) > hang_s / 4:
+                        finish(case, {'idx': case[0], 'kind': 'hang', 'cpu': hang_s, 'ntags': 0, 'skipped_after': dep})
+                        continue
+                pr, conn = idle.pop() if idle else spawn()
+                conn.send(case)
+                busy[conn] = (pr, case, time.time())
+            if not busy:
+                if pending and postponed > len(pending):
+                    # only cases waiting for cases that will never finish: cannot happen (dependencies are acyclic), but do not spin
+                    case = pending.popleft()
+                    finish(case, {'idx': case[0], 'kind': 'skipped', 'cpu': 0, 'ntags': 0})
+                continue
+            for conn in mpc.wait(list(busy), timeout=0.5):
+                pr, case, t0 = busy.pop(conn)
                 try:
-                    r = it.next(timeout=HANG_S)
-                except multiprocessing.TimeoutError:
-                    on_result({'idx': cases[i][0], 'kind': 'hang', 'cpu': HANG_S, 'ntags': 0})
-                    i += 1
-                    break
-                except StopIteration:
-                    i = len(cases)
-                    break
-                on_result(r)
-                i += 1
-        finally:
-            pool.terminate()
-            pool.join()
+                    r = conn.recv()
+                except (EOFError, OSError):
+                    r = {'idx': case[0], 'kind': 'crash', 'exc': 'WorkerDied', 'site': 'process', 'msg': 'the worker process died (exit code %r)' % (pr.exitcode,), 'tb': '', 'cpu': time.time() - t0}
+                    finish(case, r)
+                    continue
+                if r.get('kind') == 'worker-init-failed':
+                    raise common.Infra('worker could not import the tool: ' + r.get('msg', ''))
+                finish(case, r)
+                idle.append((pr, conn))
+            now = time.time()
+            for conn in list(busy):
+                pr, case, t0 = busy[conn]
+                if now - t0 > hang_s:
+                    busy.pop(conn)
+                    pr.terminate()
+                    pr.join(2)
+                    if pr.is_alive():
+                        pr.kill()
+                    conn.close()
+                    hangs += 1
+                    finish(case, {'idx': case[0], 'kind': 'hang', 'cpu': hang_s, 'ntags': 0})
+    finally:
+        for pr, conn in idle:
+            try:
+                conn.send(None)
+            except Exception:
+                pass
+        for pr, conn in idle:
+            pr.join(1)
+            if pr.is_alive():
+                pr.terminate()
+        for conn, (pr, case, t0) in busy.items():
+            pr.terminate()
+
+def lang_ok(s):
+    """would `-l s` be accepted?  (decided by the harness on the real ling module, only to know what to expect of the run)"""
+    try:
+        from lib import ling
+        ling.parse_language(s).fix_codes()
+        return True
+    except Exception:
+        return False
 
 def make_opts(rng):
     o = {}
     r = rng.random()
     if r < 0.2:
-        o['language'] = rng.choice(['pl', 'pl_PL', 'de', 'sr@latin', 'pt_BR', 'zh_TW', 'ja', 'en_GB.UTF-8', 'ca@valencia', 'pol'])
+        o['language'] = rng.choice(['pl', 'pl_PL', 'de', 'sr@latin', 'pt_BR', 'zh_TW', 'ja', 'en_GB.UTF-8', 'ca@valencia', 'pol', 'pl', 'de', 'zz', 'xx_YY!', 'POLISH', 'tlh'])
     if rng.random() < 0.12:
         o['file_type'] = rng.choice(['po', 'pot', 'mo', 'gmo'])
     r = rng.random()
@@ -136,14 +293,63 @@ def make_opts(rng):
         o['subdir'] = rng.choice(['pl/LC_MESSAGES', 'de_DE/LC_MESSAGES', 'xx/LC_MESSAGES', 'LC_MESSAGES', 'None/LC_MESSAGES', 'po', 'pl', 'sr@latin/LC_MESSAGES'])
     return o
 
+def hexs(s):
+    return '.'.join('%x' % ord(c) for c in s) if s else '-'
+
+def model_streams(chk, rng):
+    """correspondence of the pipeline model with the real code (scripted collaborators): see pipeline_common.py"""
+    big = chk.thorough
+    try:
+        if chk.lean is not None and chk.lean.translation.get('excmap') == 'changed':
+            with common.Lock():
+                rc, log = common.lake_build(['driver'])
+            if rc != 0:
+                chk.broken.append({'kind': 'correspondence', 'stream': 'pipeline-*', 'problem': 'driver could not be rebuilt from the regenerated exception map'})
+                return
+        data = P.excmap_json()
+        if data is None:
+            chk.broken.append({'kind': 'correspondence', 'stream': 'pipeline-*', 'problem': 'exception map could not be extracted'})
+            return
+        with tempfile.TemporaryDirectory(prefix='i18n-verif-c01p.') as wd:
+            lines, impl = P.dispatch_cases(data)
+            chk.stream('pipeline-dispatch', lines, impl)
+            lines = P.gen_check_lines(rng, 3000 if big else 900, data['classes'])
+            chk.stream('pipeline-check', lines, [P.impl_check(l, wd) for l in lines])
+            lines = [l for l in P.gen_main_lines(rng, 400 if big else 70)]
+            impl = [P.impl_main(l) for l in lines]
+            keep = [i for i, o in enumerate(impl) if o is not None]
+            chk.stream('pipeline-main', [lines[i] for i in keep], [impl[i] for i in keep])
+            lines = P.gen_file_lines(rng, 600 if big else 150)
+            chk.stream('pipeline-file', lines, [P.impl_file(l, wd) for l in lines])
+            n = 20000 if big else 2500
+            cs = GC.boundary_strings() + GC.context_strings() + [GC.gen_string(rng) if rng.random() < 0.7 else GC.mutate(rng, GC.gen_string(rng)) for _ in range(n)] + HG.CFMT
+            cs = [x for x in cs if x and len(x) < 3000]
+            chk.stream('pipeline-cstring', ['pipeline cstring ' + hexs(x) for x in cs], [P.impl_string('c', x) for x in cs])
+            ps = GP.boundary_strings() + GP.context_strings() + [GP.gen_string(rng) if rng.random() < 0.7 else GP.mutate(rng, GP.gen_string(rng)) for _ in range(n)] + HG.PYFMT
+            ps = [x for x in ps if x and len(x) < 3000]
+            chk.stream('pipeline-pystring', ['pipeline pystring ' + hexs(x) for x in ps], [P.impl_string('python', x) for x in ps])
+    except common.Infra:
+        raise
+    except Exception as exc:
+        chk.broken.append({'kind': 'correspondence', 'stream': 'pipeline-*', 'problem': 'harness failed on the real code: %r' % (exc,)})
+
 def main():
     chk = common.Check('C01')
-    chk.prove('I18n.Props.C01', generated=())
+    sect = {}
+    chk.coverage['section_wall_s'] = sect
+    chk.prove('I18n.Props.C01', generated=('excmap',))
     rng = chk.rng
+    model_streams(chk, rng)
     mult = 3 if chk.broken else 1
-    n_files = (30000 if chk.thorough else 4000) * mult
-    workers = 12 if chk.thorough else 10
+    # regex screen: in a child process, collected in section 4
+    rx_samples = [(HG._wrap('#. type: Content of: <para>\n' + HG._msg('c-format, range: 1..2', '<a>%d</a>', '<a>%d</a>') + HG._msg('python-brace-format', '{0:{1}}', '{0!r:>{1}}') +
+                            HG._msg('perl-brace-format', '{a}', '{a}') + HG._msg('python-format', '%(a)s', '%(a)s'), extra_fields='X-Poedit-Language: Polish\n'), '.po'),
+                  (b"# SOME DESCRIPTIVE TITLE.\n# Copyright (C) YEAR THE PACKAGE'S COPYRIGHT HOLDER\n" + HG._wrap(HG._msg('', 'a', 'b')), '.pot'), (HG._mo_n(2), '.mo')]
+    rx = RX.Screen(rx_samples, limit_s=100 if chk.thorough else 70)
+    n_files = (60000 if chk.thorough else 4000) * mult
+    workers = 4
 
+    sect['proof+model-streams'] = round(time.time() - chk.t0 - sum(sect.values()), 1)
     # ---------------------------------------------------------------- 1. in-process crash/hang search
     cases = []
     descr = {}
@@ -156,6 +362,8 @@ def main():
             ext = os.path.splitext(name)[1]
             cases.append((len(cases), data, ext, {}))
             descr[len(cases) - 1] = 'corpus:' + name
+    cases.append((len(cases), b'', '.po', {'special': 'rply-cache-race'}))
+    descr[len(cases) - 1] = 'simulated race of two -j workers on rply\'s cache directory (the directory appears between exists() and makedirs())'
     bb = CAT.corpus(common.REPO)
     for name, data in bb:
         if rng.random() < (1.0 if chk.thorough else 0.35):
@@ -177,6 +385,7 @@ def main():
         for t in r.get('tags', ()):
             tagcount[t] += 1
         if r['kind'] in ('crash', 'badline', 'hang'):
+            r.setdefault('exc', '?'); r.setdefault('site', '?')
             key = ('crash:%s:%s' % (r['exc'], r['site'].split(':')[0] if r['exc'] == 'RecursionError' else r['site'])) if r['kind'] == 'crash' else r['kind'] + ':' + r.get('tag', '?')
             crashes.setdefault(key, []).append(r)
         if r.get('cpu', 0) > 5:
@@ -197,17 +406,56 @@ def main():
                'replay': 'write the bytes to a file with the extension and run /repo/i18nspector on it (options as given)'}
         chk.violation(f"{r['kind']} on a generated file ({key})", rep, key=key)
 
+    sect['in-process'] = round(time.time() - chk.t0 - sum(sect.values()), 1)
     # ---------------------------------------------------------------- 2. the command line: rc, stderr, line grammar, options
     n_cli = (600 if chk.thorough else 90) * mult
     with E.Workdir() as wd:
-        runs = []
-        special = [('nonexistent.po', None), ('dir.po', 'DIR'), ('empty.po', b''), ('empty.mo', b''), ('empty.pot', b''), ('noext', b'msgid ""\nmsgstr ""\n'), ('x.txt', b'hello')]
-        for name, data in special:
-            if data == 'DIR':
-                os.makedirs(os.path.join(wd.path, name))
-            elif data is not None:
-                wd.write(name, data)
-            runs.append(([name], name))
+        runs = []          # (args, description, expectation[, extra env]); expectation: 'ok' | 'usage' | ('ok', <tag that must appear>)
+        good_po = HG._wrap(HG._msg('c-format', '%d file', '%d plik'))
+        good_mo = HG._mo_n(2)
+        nonascii_po = HG._wrap(HG._msg('', 'a', 'za\u017c\u00f3\u0142\u0107 \U0001f600\x07')).replace(b'Language: pl', b'Language: p\xc5\x82')
+        wd.write('x.po', good_po); wd.write('x.pot', good_po); wd.write('x.mo', good_mo); wd.write('x.gmo', good_mo)
+        wd.write('.po', good_po); wd.write('..po', good_po); wd.write('sub/.po', good_po); wd.write('nonascii.po', nonascii_po)
+        wd.write('empty.po', b''); wd.write('empty.mo', b''); wd.write('empty.pot', b''); wd.write('noext', b'msgid ""\nmsgstr ""\n'); wd.write('x.txt', b'hello')
+        wd.write('corrupt.deb', b'not an archive'); wd.write('bad.dsc', b'x'); wd.write('file.po', good_po)
+        os.makedirs(os.path.join(wd.path, 'dir.po'))
+        os.symlink('nowhere.po', os.path.join(wd.path, 'dangling.po'))
+        os.symlink('loop.po', os.path.join(wd.path, 'loop.po'))
+        wd.write('noperm.po', good_po); os.chmod(os.path.join(wd.path, 'noperm.po'), 0)
+        os.makedirs(os.path.join(wd.path, 'noperm.d')); wd.write('noperm.d/x.po', good_po); os.chmod(os.path.join(wd.path, 'noperm.d'), 0)
+        weird = os.fsdecode(b'pl\xff.po')
+        with open(os.path.join(os.fsencode(wd.path), os.fsencode(weird)), 'wb') as f:
+            f.write(good_po)
+        root = (os.geteuid() == 0)
+        runs += [
+            (['nonexistent.po'], 'missing file', ('ok', 'os-error')), (['dir.po'], 'directory', 'ok'), (['dangling.po'], 'dangling symlink', ('ok', 'os-error')),
+            (['loop.po'], 'symlink loop', ('ok', 'os-error')), (['file.po/x.po'], 'path through a regular file', ('ok', 'os-error')),
+            (['noperm.po'], 'mode 000 file', 'ok' if root else ('ok', 'os-error')), (['noperm.d/x.po'], 'file in a mode 000 directory', 'ok' if root else ('ok', 'os-error')),
+            (['a' * 300 + '.po'], 'name too long', ('ok', 'os-error')), ([weird], 'undecodable file name', 'ok'),
+            (['empty.po'], 'empty', 'ok'), (['empty.mo'], 'empty', ('ok', 'invalid-mo-file')), (['empty.pot'], 'empty', 'ok'),
+            (['noext'], 'no extension', ('ok', 'unknown-file-type')), (['x.txt'], 'other extension', ('ok', 'unknown-file-type')),
+            (['-l', 'pl', 'x.po'], '-l', 'ok'), (['-l', 'pl_PL.UTF-8@euro', 'x.po'], '-l', 'ok'), (['--language', 'sr@latin', 'x.mo'], '-l', 'ok'), (['-l', 'de', 'x.po'], '-l other', ('ok', 'language-disparity')),
+            (['-l', 'xx_INVALID!', 'x.po'], '-l invalid', 'usage'), (['-l', '', 'x.po'], '-l empty', 'usage'), (['-l', 'pl\n', 'x.po'], '-l with newline', 'usage'),
+            (['-l', 'zz', 'x.po'], '-l unknown code', 'usage'), (['-l', '\udcff', 'x.po'], '-l undecodable', 'usage'),
+            (['--file-type', 'po', '.po'], '--file-type po on a base name without extension', 'ok'), (['--file-type', 'po', '..po'], '--file-type', 'ok'),
+            (['--file-type', 'po', 'sub/.po'], '--file-type', 'ok'), (['--file-type', 'pot', '.po'], '--file-type', 'ok'), (['--file-type', 'mo', '.po'], '--file-type', ('ok', 'invalid-mo-file')),
+            (['--file-type', 'mo', 'x.po'], '--file-type mo on a PO file', ('ok', 'invalid-mo-file')), (['--file-type', 'po', 'x.mo'], '--file-type po on an MO file', 'ok'),
+            (['--file-type', 'gmo', 'x.mo'], '--file-type', 'ok'), (['--file-type', 'pot', 'x.po'], '--file-type', 'ok'), (['--file-type', 'xyz', 'x.po'], '--file-type unknown', ('ok', 'unknown-file-type')),
+            (['--file-type', '', 'x.po'], '--file-type empty', ('ok', 'unknown-file-type')), (['--file-type', 'po', 'x.txt'], '--file-type', 'ok'), (['--file-type', 'po', 'dir.po'], '--file-type on a directory', 'ok'), (['--file-type', 'mo', 'dir.po'], '--file-type mo on a directory', ('ok', 'os-error')),
+            (['-j', '0', 'x.po'], '-j 0', 'usage'), (['-j', '-1', 'x.po'], '-j -1', 'usage'), (['-j', 'x', 'x.po'], '-j x', 'usage'), (['-j', 'auto', 'x.po', 'x.mo'], '-j auto', 'ok'),
+            (['-j', '2', 'x.po'], '-j 2, one file', 'ok'), (['-j', '4', 'nonexistent.po', 'x.po', 'dir.po', 'x.mo', 'x.txt'], '-j 4 with unreadable files', ('ok', 'os-error')),
+            (['-j', '2', '-l', 'pl', '--file-type', 'po', 'x.po', '.po', 'x.mo'], '-j 2 -l --file-type', 'ok'), (['--parallel', '2', 'x.po', 'x.mo'], '--parallel', 'ok'),
+            (['--unpack-deb', 'corrupt.deb'], '--unpack-deb on a non-archive', ('ok', 'unknown-file-type')), (['--unpack-deb', 'bad.dsc'], '--unpack-deb on a non-dsc', ('ok', 'unknown-file-type')),
+            (['--unpack-deb', 'missing.deb'], '--unpack-deb on a missing file', ('ok', 'os-error')), (['--unpack-deb', 'x.po', 'corrupt.deb'], '--unpack-deb', 'ok'), (['--unpack-deb', '-j', '2', 'corrupt.deb', 'x.po'], '--unpack-deb -j', 'ok'),
+            (['nonascii.po'], 'non-ASCII tags, ASCII terminal', 'ok', {'LC_ALL': 'C', 'LANG': 'C'}), (['nonascii.po'], 'non-ASCII tags, PYTHONIOENCODING=ascii:strict', 'ok', {'PYTHONIOENCODING': 'ascii:strict'}),
+            (['nonascii.po', weird], 'non-ASCII tags, latin-1 terminal', 'ok', {'PYTHONIOENCODING': 'iso-8859-1'}), (['-j', '2', 'nonascii.po', weird], 'non-ASCII tags, -j, ASCII terminal', 'ok', {'LC_ALL': 'C', 'PYTHONIOENCODING': 'ascii'}),
+        ]
+        # first use with -j: every worker builds the plural parser at the same moment; rply's on-disk cache does not exist yet
+        for k in range(6):
+            wd.write('race/p%d.po' % k, HG._wrap(HG._msg('', 'a%d' % k, 'b'), plural_forms='nplurals=2; plural=n != 1;'))
+        for k in range(40 if chk.thorough else 12):
+            runs.append((['-j', '6'] + ['race/p%d.po' % i for i in range(6)], '-j 6 with a fresh cache directory', 'ok', {'XDG_CACHE_HOME': os.path.join(wd.path, 'fresh-cache-%d' % k)}))
+        n_special = len(runs)
         sample = rng.sample(cases, min(n_cli, len(cases)))
         for k, (idx, data, ext, opts) in enumerate(sample):
             sub = opts.get('subdir', 'd%d' % (k % 5))
@@ -218,33 +466,53 @@ def main():
                 args += ['-l', opts['language']]
             if opts.get('file_type'):
                 args += ['--file-type', opts['file_type']]
-            runs.append((args + [name], descr.get(idx)))
+            runs.append((args + [name], descr.get(idx), 'usage' if args[:1] == ['-l'] and not lang_ok(args[1]) else 'ok'))
         # multi-file and -j
-        names = [r[0][-1] for r in runs[len(special):]]
+        names = [r[0][-1] for r in runs[n_special:]]
         for j in (['1', '2', '4', 'auto'] if chk.thorough else ['2', '3']):
             fl = rng.sample(names, min(len(names), 6))
-            runs.append((['-j', j] + fl, '-j ' + j))
-        outs = E.parallel(lambda r: E.run_cli(r[0], wd.path, timeout=HANG_S * 2), runs, workers=8)
+            runs.append((['-j', j] + fl, '-j ' + j, 'ok'))
+        outs = E.parallel(lambda r: E.run_cli(r[0], wd.path, timeout=HANG_S * 2, extra_env=(r[3] if len(r) > 3 else None)), runs, workers=4)
+        for d in ('noperm.d',):
+            os.chmod(os.path.join(wd.path, d), 0o700)
         chk.evaluations += len(runs)
         cli_stats = collections.Counter()
-        for (args, what), r in zip(runs, outs):
+        cli_kinds = collections.Counter()
+        for run, r in zip(runs, outs):
+            args, what, expect = run[0], run[1], run[2]
+            must = None
+            if isinstance(expect, tuple):
+                expect, must = expect
             bad = None
             if r['timeout']:
                 bad = 'hang'
+            elif expect == 'usage':
+                # a rejected option is not a "valid combination": argparse's usage error, status 2, nothing on stdout, no traceback
+                if r['rc'] != 2 or 'Traceback' in r['stderr'] or not r['stderr'].startswith('usage:') or r['stdout']:
+                    bad = 'rejected-option-not-a-usage-error'
             elif r['rc'] != 0:
                 bad = 'exit-status-%s' % r['rc']
             elif r['stderr']:
                 bad = 'stderr-not-empty'
             else:
-                for line in r['stdout'].splitlines():
-                    if not LINE_RE.match(line):
+                for line in r['stdout'].split('\n')[:-1] if r['stdout'].endswith('\n') else r['stdout'].split('\n'):
+                    if not LINE_RE.match(line) or any(unicodedata.category(c) in ('Cc', 'Cs') for c in line):
                         bad = 'line-grammar'
                         break
+                if bad is None and must is not None and (' ' + must) not in r['stdout']:
+                    bad = 'problem-not-reported-as-' + must
+            cli_kinds[what.split(',')[0][:40] if len(run) > 2 and runs.index(run) < n_special else 'generated-file'] += 1
             cli_stats[bad or 'ok'] += 1
             if bad:
                 m = re.search(r'^(\w+(?:\.\w+)*(?:Error|Exception|Interrupt|Exit)\w*)', r['stderr'].strip().splitlines()[-1] if r['stderr'].strip() else '', re.M)
                 exc = m.group(1).split('.')[-1] if m else '?'
-                fr = re.findall(r'File "%s/(lib/[^"]+)", line \d+, in (\w+)' % re.escape(common.REPO), r['stderr'])
+                # with -j the worker's traceback is quoted before 'The above exception was the direct cause …': the failing frame is there
+                inner = r['stderr'].split('The above exception was the direct cause')[0]
+                if m is None or 'RemoteTraceback' in r['stderr']:
+                    m2 = re.findall(r'^(\w+(?:\.\w+)*(?:Error|Exception)\w*)', inner, re.M)
+                    if m2:
+                        exc = m2[-1].split('.')[-1]
+                fr = re.findall(r'File "%s/(lib/[^"]+)", line \d+, in (\w+)' % re.escape(common.REPO), inner)
                 site = (fr[-1][0] + ':' + fr[-1][1]) if fr else 'outside-lib'
                 if exc == 'RecursionError':
                     site = site.split(':')[0]
@@ -261,11 +529,13 @@ def main():
                         files[a] = repr(b) if len(b) < 4000 else b.hex()
                 chk.violation(f'command line run: {bad} ({what})', {'kind': bad, 'args': args, 'files': files, 'rc': r['rc'], 'stderr': r['stderr'][-1500:], 'stdout': r['stdout'][:500],
                                                                      'expected': 'exit status 0, empty stderr, only tag lines'}, key=key)
-        chk.coverage['command_line'] = {'runs': len(runs), 'outcomes': dict(cli_stats)}
+        chk.coverage['command_line'] = {'runs': len(runs), 'outcomes': dict(cli_stats), 'special_cases': n_special, 'by_case': dict(cli_kinds)}
 
+    sect['command-line'] = round(time.time() - chk.t0 - sum(sect.values()), 1)
     # ---------------------------------------------------------------- 3. size doubling (time bounded by a low-degree polynomial)
     fam_stats = {}
     tcases = []
+    tdeps = {}
     steps = 4 if chk.thorough else 3
     for name, (fn, ext, base) in sorted(HG.TIMING_FAMILIES.items()):
         for s in range(steps):
@@ -276,10 +546,12 @@ def main():
                 raise common.Infra(f'timing family {name} failed to generate: {exc!r}')
             if len(data) > 300000:
                 break
+            if s > 0 and name in fam_stats:
+                tdeps[len(tcases)] = len(tcases) - 1
             tcases.append((len(tcases), data, ext, {'basename': 'pl'}))
             fam_stats.setdefault(name, []).append({'n': n, 'bytes': len(data)})
     tres = {}
-    run_cases(tcases, 6, lambda r: tres.__setitem__(r['idx'], r))
+    run_cases(tcases, 4, lambda r: tres.__setitem__(r['idx'], r), max_hangs=6, depends=tdeps)
     chk.evaluations += len(tcases)
     k = 0
     for name in sorted(fam_stats):
@@ -310,21 +582,140 @@ def main():
                           key=f'time:{name}')
     chk.coverage['timing'] = fam_stats
 
+    sect['timing-families'] = round(time.time() - chk.t0 - sum(sect.values()), 1)
+    # ---------------------------------------------------------------- 4. every regex reachable from lib.*: structural screen, pump strings, direct timing
+    rxr = rx.result()
+    pumps = []          # (description, function n -> string)
+    if 'hang' in rxr or 'error' in rxr:
+        if 'hang' in rxr:
+            chk.violation('a regular expression of lib/ did not return within the time limit on a pump string', {'kind': 'regex-hang', 'in_progress': rxr['hang'],
+                          'expected': 'matching time bounded by a low-degree polynomial of the subject length'}, key='time:regex-hang')
+        else:
+            chk.broken.append({'kind': 'falsifier', 'problem': 'regex screen failed: ' + rxr['error'][-400:]})
+        chk.coverage['regex_screen'] = {k: str(v)[:300] for k, v in rxr.items()}
+    else:
+        flagged = []
+        for e in rxr['screened']:
+            m = e['measure']
+            where = e['where'][0] if e['where'] else '?'
+            flagged.append({'where': where, 'reason': e['reason'], 'pump': e['pump'][:60], 'exponent': m and m['exponent'], 'time_s': m and m['time_s']})
+            pumps.append(('regex:%s#%d' % (where, e['hit_index']), (lambda n, e=e: RX.pump_for(e['pattern'], e['flags'], e['hit_index'], n, ' \x00'))))
+            pumps.append(('regex:%s#%d:unclosed' % (where, e['hit_index']), (lambda n, e=e: RX.pump_for(e['pattern'], e['flags'], e['hit_index'], n, '')[:-1])))
+            if m and m['exponent'] >= 3.0 and m['time_s'] >= 0.25:
+                subject = RX.pump_for(e['pattern'], e['flags'], e['hit_index'], m['string_n'], m['killer'] if m['killer'] != '<truncated>' else '')
+                if m['killer'] == '<truncated>':
+                    subject = subject[:-1]
+                rep = {'kind': 'regex-superlinear', 'pattern': e['pattern'], 'flags': e['flags'], 'where': e['where'], 'screen': e['reason'], 'measure': m,
+                       'subject_repr': repr(subject[:300]), 'subject_length': len(subject),
+                       'expected': 'matching time bounded by a low-degree polynomial of the subject length (measured growth exponent %.1f)' % m['exponent'],
+                       'replay': 're.compile(pattern, flags).search/match/fullmatch/finditer on the subject; through the tool: see slot_run'}
+                # through the tool: the same subject in every slot, a few sizes below the one that took the regex 0.3 s
+                slot_cases = []
+                for slot, data, ext in HG.slot_files(subject):
+                    slot_cases.append((len(slot_cases), data, ext, {'basename': 'pl'}))
+                sres = {}
+                run_cases(slot_cases, 4, lambda r: sres.__setitem__(r['idx'], r), hang_s=15, max_hangs=2)
+                chk.evaluations += len(slot_cases)
+                worst = max(sres.values(), key=lambda r: r.get('cpu', 0)) if sres else None
+                if worst is not None:
+                    slot = HG.slot_files(subject)[worst['idx']]
+                    rep['slot_run'] = {'slot': slot[0], 'extension': slot[2], 'outcome': worst['kind'], 'cpu_s': round(worst.get('cpu', 0), 3),
+                                       'file_repr': repr(slot[1]) if len(slot[1]) < 4000 else slot[1].hex()}
+                chk.violation(f"regular expression {where}: matching time grows like n^{m['exponent']} on a pump string ({m['time_s']} s at {len(subject)} characters)", rep,
+                              key='time:regex:' + where)
+        chk.coverage['regex_screen'] = {'patterns': rxr['patterns'], 'screened_repeats': len(rxr['screened']), 'flagged': flagged,
+                                        'inventory': [(x['where'][0] if x['where'] else '?') for x in rxr['all']]}
+
+    sect['regex-screen'] = round(time.time() - chk.t0 - sum(sect.values()), 1)
+    # ---------------------------------------------------------------- 5. pump strings in every slot (two sizes)
+    generic = [('a', lambda n: 'a' * n), ('%', lambda n: '%' * n), ('{', lambda n: '{' * n), ('<a>', lambda n: '<a>' * (n // 3)), ('backslash', lambda n: '\\' * n),
+               ('@a.', lambda n: '@a.' * (n // 3)), ('0', lambda n: '0' * n), ('%1$s', lambda n: '%1$s' * (n // 4)), ('{0}', lambda n: '{0}' * (n // 3)), ('blank', lambda n: ' ' * n),
+               ('a b', lambda n: 'a b ' * (n // 4)), ('{0[', lambda n: '{0' + '[a]' * (n // 3)), ('%(', lambda n: '%(' * (n // 2)), ('n+', lambda n: 'n+' * min(n // 2, 150) + 'n' + ' ' * n)]
+    generic = [('(', lambda n: '(' * n), ('(x)', lambda n: 'a@b.c (' + '(x)' * (n // 3))] + generic
+    if not chk.thorough:
+        generic = generic[:4] + rng.sample(generic[4:], 2)
+    sizes = (4000, 64000) if chk.thorough else (2000, 16000)
+    sweep = []
+    swdeps = {}
+    for what, fn in generic + pumps:
+        first = {}
+        for n in sizes:
+            try:
+                subject = fn(n)
+            except Exception:
+                continue
+            for slot, data, ext in HG.slot_files(subject):
+                if n == sizes[0]:
+                    first[slot] = len(sweep)
+                elif slot in first:
+                    swdeps[len(sweep)] = first[slot]
+                sweep.append((len(sweep), data, ext, {'basename': 'pl'}, what, slot, n))
+    swres = {}
+    run_cases([c[:4] for c in sweep], 4, lambda r: swres.__setitem__(r['idx'], r), hang_s=30, max_hangs=4, depends=swdeps)
+    chk.evaluations += len(sweep)
+    by = {}
+    for c in sweep:
+        by.setdefault((c[4], c[5]), {})[c[6]] = swres.get(c[0], {'kind': 'hang', 'cpu': HANG_S})
+    sweep_stats = collections.Counter()
+    slowest = []
+    for (what, slot), d in sorted(by.items()):
+        small, large = d.get(sizes[0]), d.get(sizes[1])
+        if small is None or large is None:
+            continue
+        for r, n in ((small, sizes[0]), (large, sizes[1])):
+            sweep_stats[r['kind']] += 1
+            if r['kind'] in ('crash', 'badline'):
+                idx = [c[0] for c in sweep if (c[4], c[5], c[6]) == (what, slot, n)][0]
+                key = ('crash:%s:%s' % (r['exc'], r['site'].split(':')[0] if r['exc'] == 'RecursionError' else r['site'])) if r['kind'] == 'crash' else 'badline:' + r.get('tag', '?')
+                chk.violation(f"{r['kind']} with pump string {what!r} x{n} in slot {slot} ({key})",
+                              {'kind': r['kind'], 'pump': what, 'slot': slot, 'n': n, 'extension': sweep[idx][2], 'file_hex': sweep[idx][1].hex() if len(sweep[idx][1]) < 40000 else sweep[idx][1][:40000].hex(),
+                               'observed': {k: r.get(k) for k in ('exc', 'site', 'msg', 'tb', 'line', 'tag')}, 'expected': 'Checker.check returns normally'}, key=key)
+        slowest.append((round(large.get('cpu', 0), 3), what, slot))
+        ratio = large.get('cpu', 0) / max(small.get('cpu', 0), 0.02)
+        degree = (ratio and (__import__('math').log(max(ratio, 1e-9)) / __import__('math').log(sizes[1] / sizes[0])))
+        if large['kind'] == 'hang' or small['kind'] == 'hang' or (large.get('cpu', 0) > 1.5 and degree > 3.3):
+            idx = [c[0] for c in sweep if (c[4], c[5], c[6]) == (what, slot, sizes[1])][0]
+            kind = 'hang' if 'hang' in (large['kind'], small['kind']) else 'superpolynomial-growth'
+            chk.violation(f'{kind}: pump string {what!r} in slot {slot}: {sizes[0]} -> {round(small.get("cpu", 0), 3)} s, {sizes[1]} -> {round(large.get("cpu", 0), 3)} s',
+                          {'kind': kind, 'pump': what, 'slot': slot, 'sizes': sizes, 'cpu_s': [small.get('cpu'), large.get('cpu')], 'extension': sweep[idx][2],
+                           'file_repr_prefix': repr(sweep[idx][1][:1500]), 'file_bytes': len(sweep[idx][1]),
+                           'expected': 'CPU time bounded by a low-degree polynomial of the size (degree estimate above 3.3 over the two sizes, or no answer within %d s)' % HANG_S,
+                           'replay': 'tools/gen/hostile.py slot_files(<pump string of the given size>) — the file of that slot written to pl<extension>, then /repo/i18nspector on it'},
+                          key=f'time:slot:{what}:{slot}')
+    chk.coverage['slot_sweep'] = {'pumps': [w for w, _ in generic + pumps], 'sizes': sizes, 'files': len(sweep), 'outcomes': dict(sweep_stats), 'slowest_cpu_s': sorted(slowest, reverse=True)[:6]}
+
+    sect['slot-sweep'] = round(time.time() - chk.t0 - sum(sect.values()), 1)
     if chk.broken and not chk.violations:
         chk.violation('proof obligation no longer checks', {'broken': chk.broken}, no_input=True)
     chk.finish(
         level='proof',
-        rule='slot-grammar files: base catalog with header slots (11 fields + extras), flag lists, format strings of the four kinds, plural declarations, charsets (110 names incl. '
-             'non-text codecs), dates, locale names, addresses, XML strings, PO lexical/structural shapes replaced from hostile pools; MO files from a Python serializer with hostile header '
-             'values, corrupted/truncated; random bytes; mutated black-box corpus; x options (-l, --file-type, base name, LC_MESSAGES directory, -j); non-trivial = distinct tag emitted',
+        rule='in-process: corpus/C01 witnesses + byte-mutated black-box corpus + slot-grammar files (header fields incl. X-Poedit-* and malformed names, flags, format strings of the four kinds, '
+             'plural declarations with boundary numerals / 4300-4301 digits / nesting 3..1500, 130 charset names incl. the tool\'s own, non-ASCII-compatible and non-text codecs, bodies encoded in the '
+             'declared or in a wide/stateful codec, dates, locale names, addresses with nested comments, XML-gated messages, PO lexical/structural shapes), MO files from a serializer (hostile headers, '
+             'corrupted words, truncation), random bytes, other extensions x options (-l valid/invalid, --file-type, base name, LC_MESSAGES directory); command line: special cases (unreadable paths, '
+             'options, -j, --unpack-deb, terminal encodings) + generated files; size-doubling families; regex screen with pump strings; pump strings in every slot at two sizes. '
+             'distinct_nontrivial = distinct tags emitted by the in-process runs (a measured lower bound on the distinct behaviours reached)',
         trusted=['Lean 4.33 kernel', 'axioms: propext, Classical.choice, Quot.sound only',
-                 'the composition theorem takes each stage outcome as a parameter: the NoCrash theorems of the component models discharge them only as far as those models go '
-                 '(Plural: C04-C07, MO loader: C09, C printf parser: C11, tag formatter: C02, and the models of C10, C12-C16, C18-C20 where merged)',
-                 'time, the regex engine, polib/rply/expat/iconv internals, the OS and -j are outside every model: decided by the search below (test level)'],
-        explanation='PROOF (Props/C01.lean): the model of Checker.check\'s loader/exception mapping is closed over the exceptions the loaders are proved to raise; run_pipeline_ok: if no stage '
-                    'raises, the run prints only tag lines and returns normally; the stage hypotheses are discharged by the component NoCrash theorems (listed in the file). '
-                    'TEST (this run): in-process crash/hang search on the real Checker.check, command-line runs (rc 0, empty stderr, line grammar, options, -j), size-doubling CPU-time stream '
-                    'over %d families.' % len(HG.TIMING_FAMILIES))
+                 'tools/translate/excmap2lean.py: ast walk over lib/, exception class expressions evaluated on the live modules; dispatch = first clause one of whose classes is in the MRO '
+                 '(compared with issubclass on every try site x class pair: stream pipeline-dispatch)',
+                 'the models of Checker.check, cli.main/check_all/check_file/check_deb and check_string are compared with the REAL functions under scripted collaborators '
+                 '(streams pipeline-check, -main, -file, -cstring, -pystring), not proved equal to them',
+                 'component theorems used (C02, C04-C07, C09, C11, C12, C18, C19) are tied to the source by their own checks, not re-tied here',
+                 'pipeline_nocrash takes the closure of the components still under construction as the named fields of `Pending` (C10 PO loader, C15 header stages, C16 message stage incl. C13/C14)',
+                 'time, recursion depth, the regex engine, polib/rply/expat/iconv/email internals, the OS, -j process handling and terminal encodings are outside every model: decided by the search (test level)'],
+        explanation='PARTIAL. PROOF (Props/C01.lean): exception closure of the modelled pipeline with the exception-to-tag mapping regenerated from the source on every run: pins strformat_errors_caught '
+                    '(every own-Error subclass and every raised class of each strformat module is reported as that format\'s *-format-string-error and swallowed for msgids), warnings_caught, plural_errors_caught, '
+                    'arithmetic_errors_caught, date_errors_caught, xml_errors_caught, charset_errors_caught, language_errors_caught, deb_errors_caught, check_sites_pin, loader_classification; '
+                    'checkString_nocrash, cCheckString_nocrash/_error_tag, pyCheckString_nocrash/_error_tag (C11, C12), braceCheckString_nocrash (hypothesis C13); check_uncaught_iff, check_total, '
+                    'loader_failure_lines, unreadable_is_tag, unknown_type_is_tag, broken_encoding_iff, mo_check_total, mo_load_agrees (C09), plurals_stage_total (C04-C07), dates_stage_total (C18), '
+                    'language_stage_total (C19); main_rc_zero_iff, main_ok, main_invalid_language, runSeq/runPar_fails_iff, checkFile_ok; pipeline_nocrash (status 0, empty stderr, only tag lines for every '
+                    'argument list, accepted -l and -j; MO loader, check_language, check_plurals, check_dates discharged; C10/C15/C16 as the named hypotheses `Pending`), pipeline_crash_visible, '
+                    'line_is_tag_line (C02), recursion_budget. OUTSTANDING: the Pending fields; any theorem about time; recursion depth (REFUTED on the real code: open finding '
+                    'crash:RecursionError:lib/intexpr.py, plural expressions nested deeper than ~490, replayed from corpus/C01 on every run). '
+                    'TEST (this run): %d in-process files, %d command-line runs, %d size-doubling families, %d regexes screened (%d repeats pumped), %d slot-sweep files. '
+                    'FIXED by this check\'s findings in /repo: 4ff67ee, d16b49e, 875595a (+ recorded 2f85d76, 9de4551).'
+                    % (len(cases), chk.coverage.get('command_line', {}).get('runs', 0), len(HG.TIMING_FAMILIES), chk.coverage.get('regex_screen', {}).get('patterns', 0),
+                       chk.coverage.get('regex_screen', {}).get('screened_repeats', 0), chk.coverage.get('slot_sweep', {}).get('files', 0)))
 
 if __name__ == '__main__':
     common.main_wrapper(main)
